@@ -148,7 +148,7 @@ func zzC02Codes() {
 			}
 		}
 	case 3: // undecodable for every parameter type
-		req.Params = vJSON(zzUndecodable{})
+		req.Params = vJSON("a JSON string where an object is expected")
 	}
 	_, err := handleReceive(context.Background(), ss, req)
 	reached := len(zzC02R.reached) > 0
@@ -183,7 +183,6 @@ func zzC02Codes() {
 	vReach("end")
 }
 
-type zzUndecodable struct{ X chan int }
 
 // zzEmptyParamsFor: a well-typed (empty) params document for methods whose params are optional.
 func zzEmptyParamsFor(method string) []byte {
